@@ -201,14 +201,15 @@ pub fn explore_threads(ctx: &Ctx, d: &Driver, tc: &ThreadsCfg, out: &mut Outcome
             let suffixes: Vec<Option<Act>> = if tc.with_suffix { std::iter::once(None).chain(d.alphabet.iter().cloned().map(Some)).collect() } else { vec![None] };
             let (runs, capped) = explore_schedules(tc.preemption_bound, tc.max_runs_per_case, |prefix| {
                 let r = run_par(d, h, ops, prefix, None)?;
-                fps.insert(r.fp);
+                // (equal fingerprints have equal futures: the suffix actions are run once per distinct outcome)
+                let new_outcome = fps.insert(r.fp);
                 cr.max_decisions = cr.max_decisions.max(r.sched.decisions.len());
                 cr.diverged |= r.sched.diverged;
                 let full: Vec<u8> = r.sched.decisions.iter().map(|x| x.chosen).collect();
                 for f in r.findings.iter().filter(|f| judged(f)) {
                     cr.findings.push((f.clone(), full.clone(), None));
                 }
-                for sfx in suffixes.iter().skip(1) {
+                for sfx in suffixes.iter().skip(1).filter(|_| new_outcome) {
                     if let Some(r2) = run_par(d, h, ops, &full, sfx.as_ref()) {
                         for f in r2.findings.iter().filter(|f| judged(f)) {
                             if !r.findings.iter().any(|g| g.signature == f.signature) {
